@@ -4,7 +4,7 @@
 # the original tests pass and the demo fails. Then copies everything to /verif/seeded/<id>/.
 set -u
 OUT="$1"; ID="$2"; DEMO_CMD="$3"
-WT=/tmp/confirm_wt
+WT=${CONFIRM_WT:-/tmp/confirm_wt}
 if [ ! -d $WT ]; then git -C /repo worktree add -q --detach $WT HEAD || exit 2; fi
 cd $WT || exit 2
 git checkout -q --detach $(git -C /repo rev-parse HEAD) 2>/dev/null
